@@ -122,7 +122,7 @@ func cmdDfaCases(args []string) int {
 		if ncases > 0 {
 			cases.WriteString(";\n")
 		}
-		fmt.Fprintf(&cases, "  (* %s, %s *)\n  mkCase %d nfa_%d (mkCfg %d %d %d %s %d cls_%d false false false) [\n    %s]",
+		fmt.Fprintf(&cases, "  (* %s, %s *)\n  mkCase %d nfa_%d (mkCfg %d %d %d %s %d cls_%d false false false false) [\n    %s]",
 			pkSafe(pat), dc.name, ncases, i, effCap(dc.cfg), dc.cfg.MaxCacheClears, dc.cfg.DeterminizationLimit, coqBool(dc.cfg.BreakAtMatch), stride, i,
 			strings.Join(calls, ";\n    "))
 		ncases++
@@ -421,7 +421,7 @@ func cmdDfaCases(args []string) int {
 						if ncases > 0 {
 							cases.WriteString(";\n")
 						}
-						fmt.Fprintf(&cases, "  (* reverse of %s, %s *)\n  mkCase %d rnfa_%d (mkCfg %d %d %d %s %d rcls_%d false false false) [\n    %s]",
+						fmt.Fprintf(&cases, "  (* reverse of %s, %s *)\n  mkCase %d rnfa_%d (mkCfg %d %d %d %s %d rcls_%d false false false false) [\n    %s]",
 							pkSafe(pat), dc.name, ncases, i, effCap(rcfg), rcfg.MaxCacheClears, rcfg.DeterminizationLimit, coqBool(rcfg.BreakAtMatch), rstride, i,
 							strings.Join(calls, ";\n    "))
 						ncases++
